@@ -47,7 +47,7 @@ inline bool pick_violation(const std::string& prop, const std::vector<Violation>
         int k = g_known.match(prop, v.kind, tok);
         if (k >= 0) {
             const auto& ke = g_known.entries[(size_t)k];
-            std::string key = ke.kind + (ke.token.empty() ? "" : ":" + ke.token);
+            std::string key = ke.kind + (ke.token.empty() ? "" : ":" + ((!ke.token.empty() && ke.token.back() == '*') ? tok : ke.token));
             st.known[key]++;
             if (!st.known_example.count(key)) st.known_example[key] = v.detail;
             continue;
@@ -380,6 +380,42 @@ template <class C> bool roundtrip_check(Exec<C>& ex, int i, int s, Stats& st) {
     return true;
 }
 
+// Shape token for two objects whose recomposed texts are identical but which differ structurally (C11 alias family).
+// Common trailing segments are stripped so that the token names only the differing head of the two paths.
+inline std::string alias_token(const UriView& a, const UriView& b, int a_path_origin = -1, int a_host_origin = -1) {
+    static const char* kn[] = {"none", "regname", "ip4", "ip6", "ipfuture"};
+    std::vector<std::string> parts;
+    if (a.scheme != b.scheme || a.userInfo != b.userInfo || a.port != b.port || a.query != b.query || a.fragment != b.fragment ||
+        (a.hostKind == b.hostKind && (a.hostKind == 2 || a.hostKind == 3 ? a.ipBytes != b.ipBytes : a.hostText != b.hostText)))
+        return "alias:other";
+    if (a.hostKind != b.hostKind) {
+        std::string x = kn[a.hostKind], y = kn[b.hostKind];
+        if (a_host_origin >= 0) parts.push_back(std::string("host:") + x + "@" + (a_host_origin == OP_NORMALIZE ? "normalize" : a_host_origin == OP_PARSE ? "parse" : "resolve-or-relativize") + "|" + y);
+        else { if (y < x) std::swap(x, y); parts.push_back("host:" + x + "|" + y); }
+    }
+    if (a.absolutePath != b.absolutePath || a.hasPath != b.hasPath || a.segs != b.segs) {
+        size_t k = 0;
+        while (k < a.segs.size() && k < b.segs.size() && a.segs[a.segs.size() - 1 - k] == b.segs[b.segs.size() - 1 - k]) k++;
+        auto shape = [&](const UriView& v) {
+            std::string s = v.hostKind ? "H" : (v.absolutePath ? "A" : "R");
+            if (!v.scheme.present && !v.hostKind) s += "n";     // no scheme: a relative reference
+            if (!v.hasPath) return s + "~";
+            s += "(";
+            size_t n = v.segs.size() - k;
+            for (size_t i = 0; i < n && i < 6; i++) s += v.segs[i].empty() ? 'e' : (v.segs[i] == "." ? 'd' : 'x');
+            if (n > 6) s += '*';
+            return s + ")";
+        };
+        std::string x = shape(a), y = shape(b);
+        if (a_path_origin >= 0) parts.push_back("path:" + x + "@" + (a_path_origin == OP_NORMALIZE ? "normalize" : a_path_origin == OP_PARSE ? "parse" : "resolve-or-relativize") + "|" + y);
+        else { if (y < x) std::swap(x, y); parts.push_back("path:" + x + "|" + y); }
+    }
+    if (parts.empty()) return "alias:other";
+    std::string t = "alias:";
+    for (size_t i = 0; i < parts.size(); i++) { if (i) t += "+"; t += parts[i]; }
+    return t;
+}
+
 inline bool produces_uri(int kind) { return kind == OP_PARSE || kind == OP_ADDBASE || kind == OP_REMOVEBASE || kind == OP_NORMALIZE || kind == OP_MAKEOWNER; }
 
 // ================================================================================================ C07
@@ -473,17 +509,8 @@ template <class C> Verdict check_C11(const Plan& plan, Stats& st) {
                 if (text_ok[(size_t)a] && text_ok[(size_t)b]) {
                     bool same_text = textv[(size_t)a] == textv[(size_t)b];
                     if (r && !same_text) violate(V_EQUALS, "[equal-but-texts-differ] equal URIs recompose to different texts \"" + hexesc(textv[(size_t)a]) + "\" vs \"" + hexesc(textv[(size_t)b]) + "\"", false);
-                    if (!r && same_text && comp == r) {
-                        // representation alias: same text, different structure
-                        std::string kinds;
-                        if (va.hostKind != vb.hostKind) kinds += "host-kind,";
-                        if (va.absolutePath != vb.absolutePath) kinds += "absolute-flag,";
-                        if (va.hasPath != vb.hasPath || va.segs != vb.segs) kinds += "path-structure,";
-                        std::string other;
-                        if (va.scheme != vb.scheme || va.userInfo != vb.userInfo || va.port != vb.port || va.query != vb.query || va.fragment != vb.fragment) other = "other";
-                        if (!kinds.empty()) kinds.pop_back();
-                        violate(V_EQUALS, "[alias:" + (other.empty() ? kinds : other) + "] URIs with identical recomposed text \"" + hexesc(textv[(size_t)a]) + "\" compare unequal; a={" + va.str(false) + "} b={" + vb.str(false) + "}", false);
-                    }
+                    // (two objects with identical text that compare unequal are either componentwise identical - reported above - or at
+                    //  least one of them differs structurally from the re-parse of its own text, which is reported below per object)
                 }
             }
         }
@@ -503,13 +530,7 @@ template <class C> Verdict check_C11(const Plan& plan, Stats& st) {
                 bool comp = va.componentwise_equal(rp.view);
                 if (r != comp) violate(V_EQUALS, std::string(r ? "[equal-but-components-differ]" : "[unequal-but-components-identical]") + " object vs re-parse of its own text \"" + hexesc(textv[(size_t)a]) + "\": a={" + va.str(false) + "} b={" + rp.view.str(false) + "}", false);
                 else if (!r) {
-                    std::string kinds;
-                    if (va.hostKind != rp.view.hostKind) kinds += "host-kind,";
-                    if (va.absolutePath != rp.view.absolutePath) kinds += "absolute-flag,";
-                    if (va.hasPath != rp.view.hasPath || va.segs != rp.view.segs) kinds += "path-structure,";
-                    if (va.scheme != rp.view.scheme || va.userInfo != rp.view.userInfo || va.port != rp.view.port || va.query != rp.view.query || va.fragment != rp.view.fragment || (va.hostKind == rp.view.hostKind && va.hostKind != 3 && va.hostText != rp.view.hostText)) kinds = "other,";
-                    if (!kinds.empty()) kinds.pop_back();
-                    violate(V_EQUALS, "[alias:" + kinds + "] object {" + va.str(false) + "} and the re-parse of its own text \"" + hexesc(textv[(size_t)a]) + "\" {" + rp.view.str(false) + "} compare unequal", false);
+ violate(V_EQUALS, "[" + alias_token(va, rp.view, ex.us[a].path_origin, ex.us[a].host_origin) + "] object {" + va.str(false) + "} and the re-parse of its own text \"" + hexesc(textv[(size_t)a]) + "\" {" + rp.view.str(false) + "} compare unequal", false);
                 }
             }
             rp.done(ex, n);
